@@ -34,8 +34,24 @@ Check (C19_trex_strict : (exists p, build_mvex = build_box T_mvex (build_box T_t
 Check (C19_progressive_tkhd_refuted : (forall id vol w h, strict_tkhd (payload_of (build_tkhd_box_with_id id vol w h)) = None)%type).
 Check (C19_progressive_vmhd_refuted : (strict_vmhd (payload_of build_vmhd_box) = false)%type).
 Check (C19_vpcC_refuted : (forall c, strict_vpcc (payload_of (build_vpcc_box c)) = None)%type).
-Check (C19_fragmented_av1C_refuted : (forall c, strict_av1c (payload_of (build_av1c_fmp4 c)) = None)%type).
-Check (C19_fragmented_hvcC_refuted : (forall c, strict_hvcc (payload_of (build_hvcc_fmp4 c)) = None)%type).
+Check (C19_fragmented_av1C_strict : (forall c a,
+  extract_av1_config (match fc_av1 c with Some s => s | None => [] end) = Some a ->
+  strict_av1c (payload_of (build_av1c_fmp4 c)) =
+    Some {| a1_profile := av1_seq_profile a; a1_level := av1_seq_level_idx a; a1_tier := av1_seq_tier a;
+            a1_high_bitdepth := av1_high_bitdepth a; a1_twelve_bit := av1_twelve_bit a; a1_mono := av1_monochrome a;
+            a1_sx := av1_subsampling_x a; a1_sy := av1_subsampling_y a; a1_csp := av1_chroma_sample_position a;
+            a1_obus := av1_sequence_header a |})%type).
+Check (C19_fragmented_av1C_strict_fallback : (forall c,
+  extract_av1_config (match fc_av1 c with Some s => s | None => [] end) = None ->
+  strict_av1c (payload_of (build_av1c_fmp4 c)) =
+    Some {| a1_profile := 0; a1_level := 0; a1_tier := 0;
+            a1_high_bitdepth := false; a1_twelve_bit := false; a1_mono := false;
+            a1_sx := true; a1_sy := true; a1_csp := 0;
+            a1_obus := match fc_av1 c with Some s => s | None => [] end |})%type).
+Check (C19_fragmented_hvcC_strict : (forall c,
+  let vps := match fc_vps c with Some v => v | None => [] end in
+  len vps < 65536 -> len (fc_sps c) < 65536 -> len (fc_pps c) < 65536 ->
+  strict_hvcc (payload_of (build_hvcc_fmp4 c)) = Some [(32, vps); (33, fc_sps c); (34, fc_pps c)])%type).
 Check (C19_multichannel_dOps_refuted : (forall a, 3 <= at_channels a < 256 -> strict_dops (payload_of (build_dops_box a)) = None)%type).
 Check (C19_finished_file_header_clauses_exact : (forall b m0 ops m rs s,
   build b [] = inl m0 -> run m0 ops = (m, rs) -> In (RStats s) rs ->
@@ -54,3 +70,39 @@ Check (C19_finished_file_header_clauses : (forall b m0 ops m rs s cl,
   (cl = 10 /\ cfg_codec b = Vp9) \/
   (cl = 11 /\ exists a, cfg_audio b = Some a /\ at_codec a = Opus /\ (at_channels a = 0 \/ 2 < at_channels a)))%type).
 Check (C19_oversized_parameter_set_refuted : (~ header_clauses_claim)%type).
+Check (C19_init_segment_header_clauses_exact : (forall c,
+  len (init_segment_bytes c) < 4294967296 ->
+  (init_codec_of c = IH264 -> len (fc_sps c) < 65536 /\ len (fc_pps c) < 65536) ->
+  (init_codec_of c = IH265 -> forall v, fc_vps c = Some v ->
+     len v < 65536 /\ len (fc_sps c) < 65536 /\ len (fc_pps c) < 65536) ->
+  failed_C19_init (fc_width c) (fc_height c) (fc_timescale c) (init_segment_bytes c) =
+  clause 1 (fc_timescale c <? 4294967296) ++
+  clause 3 ((fc_width c <? 65536) && (fc_height c <? 65536)) ++
+  clause 5 (fc_timescale c <? 4294967296) ++
+  clause 9 ((fc_width c <? 65536) && (fc_height c <? 65536)) ++
+  clause 10 (match init_codec_of c with IVp9 => false | _ => true end))%type).
+Check (C19_init_segment_headers_conform_h264 : (forall c,
+  fc_vps c = None -> fc_av1 c = None -> fc_vp9 c = None ->
+  fc_width c < 65536 -> fc_height c < 65536 -> fc_timescale c < 4294967296 ->
+  len (fc_sps c) < 65536 -> len (fc_pps c) < 65536 ->
+  failed_C19_init (fc_width c) (fc_height c) (fc_timescale c) (init_segment_of (fmuxer_new c)) = [])%type).
+Check (C19_init_segment_headers_conform_h265 : (forall c v,
+  fc_av1 c = None -> fc_vp9 c = None -> fc_vps c = Some v ->
+  fc_width c < 65536 -> fc_height c < 65536 -> fc_timescale c < 4294967296 ->
+  len v < 65536 -> len (fc_sps c) < 65536 -> len (fc_pps c) < 65536 ->
+  failed_C19_init (fc_width c) (fc_height c) (fc_timescale c) (init_segment_of (fmuxer_new c)) = [])%type).
+Check (C19_init_segment_headers_conform_av1 : (forall c s,
+  fc_av1 c = Some s ->
+  fc_width c < 65536 -> fc_height c < 65536 -> fc_timescale c < 4294967296 ->
+  623 + len s < 4294967296 ->
+  failed_C19_init (fc_width c) (fc_height c) (fc_timescale c) (init_segment_of (fmuxer_new c)) = [])%type).
+Check (C19_init_segment_headers_vp9 : (forall c v,
+  fc_av1 c = None -> fc_vp9 c = Some v ->
+  fc_width c < 65536 -> fc_height c < 65536 -> fc_timescale c < 4294967296 ->
+  failed_C19_init (fc_width c) (fc_height c) (fc_timescale c) (init_segment_of (fmuxer_new c)) = [10])%type).
+Check (C19_init_segment_oversize_dimensions : (forall c,
+  fc_vps c = None -> fc_av1 c = None -> fc_vp9 c = None ->
+  65536 <= fc_width c \/ 65536 <= fc_height c ->
+  fc_timescale c < 4294967296 ->
+  len (fc_sps c) < 65536 -> len (fc_pps c) < 65536 ->
+  failed_C19_init (fc_width c) (fc_height c) (fc_timescale c) (init_segment_of (fmuxer_new c)) = [3; 9])%type).
